@@ -72,7 +72,7 @@ fn btreemap_rekey<F: Fn((&VirtualTargetPath, &TargetDescription)) -> (VirtualTar
     ensures r@ == rekeyed(m@)
 { unimplemented!() }
 
-//@extract src/rulelib.rs fn:verify_match_rule props=C03,C14
+//@extract src/rulelib.rs fn:verify_match_rule props=C03,C08,C13,C14
 //@desugar_for 1 it=qit call=.iter()
 //@mapindex src_artifacts
 //@subst D41 /src_artifacts\s*\.iter\(\)\s*\.map\(\|\(path, value\)\| \{\s*(\(\s*canonicalize_path\(path\)\s*\.unwrap_or_else\(\|\| path\.clone\(\)\),\s*value\.clone\(\),\s*\))\s*\}\)\s*\.collect\(\)/ => btreemap_rekey(src_artifacts, |_p: (&VirtualTargetPath, &TargetDescription)| -> (y: (VirtualTargetPath, TargetDescription)) ensures y.0 == canon_or_self(*_p.0) && y.1@ =~= (*_p.1)@ { let (path, value) = _p; proof { fact_target_description_ext(); } \1 }) optional
